@@ -364,10 +364,15 @@ OutStep == \E h \in Hosts, sp \in SPorts, d \in Dsts, dp \in DPorts, pr \in Prot
              \/ \E rnd \in (IF sp < LowLimit THEN Rnds ELSE {0}) :
                   \/ OutNew(h, sp, d, dp, pr, rnd) \/ OutNoPort(h, sp, d, dp, pr, rnd)
                   \/ OutNoPortDefect(h, sp, d, dp, pr, rnd)
+\* outside ports worth probing: the configured ones and the ones in use (FakeCands: a constant superset of the
+\* ports the allocator can hand out after at most two collisions, so that TLC can enumerate the quantifier)
+FakeCands == UNION {{s, s + 1, s + 2} : s \in {x \in SPorts : x >= LowLimit}}
+             \cup UNION {{r, r + 1, r + 2, DynLo, DynLo + 1} : r \in Rnds}
 ProbePorts == InPorts \cup {m.fake : m \in maps}
-InStep == \E v \in Vias, r \in Remotes \cup {"dns"}, rp \in DPorts, fp \in ProbePorts, pr \in Protos :
-            \/ InNoGw(v, r, rp, fp, pr) \/ InBlocked(v, r, rp, fp, pr) \/ InFast(v, r, rp, fp, pr)
-            \/ InReinstall(v, r, rp, fp, pr) \/ InUnsolicited(v, r, rp, fp, pr)
+InStep == \E v \in Vias, r \in Remotes \cup {"dns"}, rp \in DPorts, fp \in InPorts \cup FakeCands, pr \in Protos :
+            /\ fp \in ProbePorts
+            /\ \/ InNoGw(v, r, rp, fp, pr) \/ InBlocked(v, r, rp, fp, pr) \/ InFast(v, r, rp, fp, pr)
+               \/ InReinstall(v, r, rp, fp, pr) \/ InUnsolicited(v, r, rp, fp, pr)
 ArpStep == \/ \E p \in {OutPort, 1}, spa \in {"gwip", "r1"}, sha \in GwMacs : ArpReply(p, spa, sha)
            \/ \E tpa \in {"out", "gwip"} : ArpRequest(OutPort, "gw", tpa)
            \/ \E h \in Hosts : \E tpa \in ({"in", "out", "r1"} \cup Locals) \ {h} : ArpRequest(HostPort[h], h, tpa)
